@@ -1,99 +1,8 @@
 import MidnightZK.Model.Common
-import MidnightZK.Model.C19.Rx
-import MidnightZK.Model.C19.Tree
-import MidnightZK.Model.C19.Dfa
+import MidnightZK.Model.C19.Parse
 /-! Line-protocol handler of property C19. -/
 namespace MidnightZK.C19.Driver
 open MidnightZK MidnightZK.C19
-
-/-- Parse `k` items with `p`. -/
-def parseMany {α : Type} (p : List String → Option (α × List String)) :
-    Nat → List String → Option (List α × List String)
-  | 0, ts => some ([], ts)
-  | k + 1, ts => do
-    let (x, ts) ← p ts
-    let (xs, ts) ← parseMany p k ts
-    pure (x :: xs, ts)
-
-def parseLSetItem : List String → Option ((Nat × Nat) × List String)
-  | m :: mask :: ts => do
-    let m ← m.toNat?
-    let mask ← parseHex? mask
-    pure ((m, mask), ts)
-  | _ => none
-
-/-- Prefix syntax of the dumped internal tree:
-`S k (marker hexmask)*k | C n t*n | U n t*n | I n t*n | P t | T t | N t`. -/
-partial def parseTree : List String → Option (RTree × List String)
-  | "S" :: k :: ts => do
-    let k ← k.toNat?
-    let (items, ts) ← parseMany parseLSetItem k ts
-    pure (.single items, ts)
-  | "C" :: n :: ts => do
-    let (l, ts) ← parseMany parseTree (← n.toNat?) ts
-    pure (.concat l, ts)
-  | "U" :: n :: ts => do
-    let (l, ts) ← parseMany parseTree (← n.toNat?) ts
-    pure (.union l, ts)
-  | "I" :: n :: ts => do
-    let (l, ts) ← parseMany parseTree (← n.toNat?) ts
-    pure (.inter l, ts)
-  | "P" :: ts => do
-    let (r, ts) ← parseTree ts
-    pure (.star true r, ts)
-  | "T" :: ts => do
-    let (r, ts) ← parseTree ts
-    pure (.star false r, ts)
-  | "N" :: ts => do
-    let (r, ts) ← parseTree ts
-    pure (.compl r, ts)
-  | _ => none
-
-def parseNats : Nat → List String → Option (List Nat × List String) :=
-  parseMany (fun ts => match ts with
-    | t :: ts => t.toNat?.map (fun n => (n, ts))
-    | [] => none)
-
-def parseRow : List String → Option ((Nat × Nat × Nat × Nat) × List String)
-  | s :: t :: m :: mask :: ts => do
-    pure ((← s.toNat?, ← t.toNat?, ← m.toNat?, ← parseHex? mask), ts)
-  | _ => none
-
-/-- Syntax of a dumped automaton:
-`A nb_states initial F k f*k R k (source target marker hexmask-of-bytes)*k`. -/
-def parseDfa : List String → Option (Dfa × List String)
-  | "A" :: n :: init :: "F" :: k :: ts => do
-    let n ← n.toNat?
-    let init ← init.toNat?
-    let (fs, ts) ← parseNats (← k.toNat?) ts
-    match ts with
-    | "R" :: k :: ts =>
-      let (rows, ts) ← parseMany parseRow (← k.toNat?) ts
-      if n > 100000 then none else
-      let finals := fs.foldl (fun (a : Array Bool) f => a.setIfInBounds f true) (Array.replicate n false)
-      if fs.any (· ≥ n) then none else
-      let tbl := rows.foldl (fun (a : Array (Option (Nat × Nat))) (s, t, m, mask) =>
-        (List.range 256).foldl (fun a b =>
-          if mask.testBit b then a.setIfInBounds (s * 256 + b) (some (t, m)) else a) a)
-        (Array.replicate (n * 256) none)
-      if rows.any (fun (s, t, _, mask) => s ≥ n || t ≥ n || mask ≥ 2 ^ 256) then none else
-      pure ({ nStates := n, init := init, finals := finals, tbl := tbl }, ts)
-    | _ => none
-  | _ => none
-
-def parseWord (s : String) : Option (List Letter) :=
-  if s = "-" then some [] else
-  (s.splitOn ",").mapM (fun t => match t.splitOn ":" with
-    | [b, m] => do pure (← b.toNat?, ← m.toNat?)
-    | _ => none)
-
-def fmtWord (w : List Letter) : String :=
-  if w.isEmpty then "-" else ",".intercalate (w.map (fun a => s!"{a.1}:{a.2}"))
-
-def fmtVerdict : Verdict → String
-  | .equiv _ _ => "equiv"
-  | .diff w => s!"diff {fmtWord w}"
-  | .unknown why => s!"unknown {why}"
 
 def fuel : Nat := 2000000
 
